@@ -53,6 +53,7 @@ class Prop:
     assumptions: List[str]
     invariants: List[str] = field(default_factory=list)
     extra: Optional[Callable[["Run"], None]] = None      # additional machinery (trace validation...)
+    replay: Optional[Callable[[Dict[str, Any]], int]] = None   # replays one recorded witness (properties without slices)
 
 
 @dataclass
@@ -294,6 +295,15 @@ def replay_file(prop: Prop, path: str) -> int:
     from . import conc
 
     payload = json.loads(Path(path).read_text())
+    if prop.replay is not None and "vector" not in payload:
+        try:
+            rc = prop.replay(payload)
+        except tlc.MachineryError as exc:
+            print("MACHINERY-ERROR property=%s %s" % (prop.id, exc), file=sys.stderr)
+            return 2
+        if rc:
+            print("VIOLATION property=%s replay=%s" % (prop.id, path))
+        return rc
     sl = next((s for s in prop.slices if s.name == payload.get("slice")), prop.slices[0])
     obs = pool.replay([payload["vector"]], sl.observe[0], sl.observe[1], header=payload.get("header"), nproc=1, env=sl.env)
     oc = prop.compare(payload["vector"], obs[0])
